@@ -107,6 +107,7 @@ type Contracts struct {
 	PureGlobs []string // patterns of effect-free functions
 	Preds     map[string]*DefineDecl // state-dependent predicates, macro-expanded at use
 	ChanInvs  map[string]*ChanInv    // channel element type -> invariant on sent values
+	AllocInvs map[string]*ChanInv    // type -> fact about a freshly zero-allocated value (self = its address)
 	Files     []string
 	All       []*Contract
 }
@@ -116,7 +117,7 @@ var assignsRe = regexp.MustCompile(`^(.+)\[(\w+)\]\s+for\s+(\w+)\s+in\s+(.+?)\s+
 var atLine = regexp.MustCompile(`^\s*//\s?@\s?(.*)$`)
 
 func newContracts() *Contracts {
-	return &Contracts{ByName: map[string]*Contract{}, Abstract: map[string]*Contract{}, Ghosts: map[string]*GhostDecl{}, Defines: map[string]*DefineDecl{}, Preds: map[string]*DefineDecl{}, ChanInvs: map[string]*ChanInv{}}
+	return &Contracts{ByName: map[string]*Contract{}, Abstract: map[string]*Contract{}, Ghosts: map[string]*GhostDecl{}, Defines: map[string]*DefineDecl{}, Preds: map[string]*DefineDecl{}, ChanInvs: map[string]*ChanInv{}, AllocInvs: map[string]*ChanInv{}}
 }
 
 func (cs *Contracts) loadFile(path, pkgPath, pkgName string) error {
@@ -405,6 +406,20 @@ func (cs *Contracts) loadFile(path, pkgPath, pkgName string) error {
 				ty = pkgName + "." + ty
 			}
 			cs.ChanInvs[ty] = &ChanInv{Clause: c, Pkg: pkgPath, Ty: ty}
+		case "allocinv":
+			i := strings.Index(rest, " :: ")
+			if i < 0 {
+				return fmt.Errorf("%s:%d: allocinv TYPE :: EXPR", path, ln)
+			}
+			c, err := mk(rest[i+4:])
+			if err != nil {
+				return err
+			}
+			ty := strings.TrimSpace(rest[:i])
+			if pkgName != "" && !strings.Contains(ty, ".") {
+				ty = pkgName + "." + ty
+			}
+			cs.AllocInvs[ty] = &ChanInv{Clause: c, Pkg: pkgPath, Ty: ty}
 		case "axiom":
 			c, err := mk(rest)
 			if err != nil {
